@@ -5,7 +5,11 @@
    and scripted by the *inputs* of a session. *)
 From HyV Require Export State.EvalRestoreSymex Gen.StateReplTerm.
 
-Definition repl_prog : prog := {| pfuns := repl_funs; pmro := repl_mro; pvars := [] |}.
+(* the program, with except clauses decided by matcher m; [repl_prog] uses the generated class table *)
+Definition repl_prog_m (m : val -> list string -> bool) : prog :=
+  {| pfuns := repl_funs; pmro := repl_mro; pvars := []; pmatch := m |}.
+Definition table : val -> list string -> bool := table_match repl_mro.
+Definition repl_prog : prog := repl_prog_m table.
 
 (* ---- the REPL object and its namespace in the heap *)
 Definition self_id : N := 1.
@@ -17,18 +21,22 @@ Definition k3 : val := VStr "*3".
 Definition ke : val := VStr "*e".
 Definition kinfo : val := VStr "_hy_exc_info".
 
-Definition repl_obj (lv : val) (pf : bool) : obj :=
+(* got_value is assigned at the start of every runsource; a new REPL object does not have the
+   attribute yet, which no code can observe, so the model carries it from the start *)
+Definition repl_obj (lv : val) (pf gv : bool) : obj :=
   OInst "REPL" [("locals", VRef loc_id); ("last_value", lv); ("print_last_value", VBool pf);
                 ("_repl_results_symbols", VTup [k1; k2; k3]);
                 ("compile", VGlobal "HyCommandCompiler()"); ("output_fn", VGlobal "output_fn");
-                ("filename", VStr "<stdin>")].
-Definition repl_locals (a b c : val) (rest : list (val * val)) : obj :=
-  ODict ((k1, a) :: (k2, b) :: (k3, c) :: rest).
+                ("filename", VStr "<stdin>"); ("got_value", VBool gv)].
+(* *e and _hy_exc_info are only ever written, or read with .get (absent reads as None): the model
+   keeps both keys from the start, with value None standing for "not there yet" *)
+Definition repl_locals (a b c e info : val) (rest : list (val * val)) : obj :=
+  ODict ((k1, a) :: (k2, b) :: (k3, c) :: (ke, e) :: (kinfo, info) :: rest).
 
-(* the heap holds a REPL whose last_value is lv, print flag pf, *1 *2 *3 = a b c,
-   and whose other variables (the star-e variable, _hy_exc_info, the user's own) are rest *)
-Definition repl_heap (h : heap) (lv : val) (pf : bool) (a b c : val) (rest : list (val * val)) : Prop :=
-  hget h self_id = Some (repl_obj lv pf) /\ hget h loc_id = Some (repl_locals a b c rest).
+(* the heap holds a REPL whose last_value is lv, print flag pf, *1 *2 *3 = a b c, *e = e, and whose
+   other variables are rest; h0 is everything else *)
+Definition mkheap (lv : val) (pf gv : bool) (a b c e info : val) (rest : list (val * val)) (h0 : heap) : heap :=
+  (self_id, repl_obj lv pf gv) :: (loc_id, repl_locals a b c e info rest) :: h0.
 
 (* ---- inputs of a session: what the opaque parts do with one complete or incomplete input *)
 Inductive input :=
@@ -40,46 +48,36 @@ Inductive input :=
 (* output_fn raises on the values this function maps to an exception *)
 Definition out_script := val -> option val.
 
-Definition code_of (i : Z) : val := VTup [VTup [VInt i; VInt 0]; VTup [VInt i; VInt 1]].
+Definition code_of : val := VTup [VTup [VInt 0; VInt 0]; VTup [VInt 0; VInt 1]].
 
-Definition nth_input (inputs : list input) (i : Z) : option input :=
-  if (i <? 0)%Z then None else nth_error inputs (Z.to_nat i).
-
-(* The session's opaque callees (none calls back): heap and outcome of each call.
-   The i-th input is pushed as runsource(VInt i, ...). *)
-Definition session_pure (inputs : list input) (out : out_script) : pure_oracle := fun n g args kw h =>
+(* The opaque callees while ONE input is processed (none calls back): heap and outcome of each
+   call.  The heap is never made to depend on an undetermined test. *)
+Definition one_pure (inp : input) (out : out_script) : pure_oracle := fun n g args kw h =>
   if String.eqb g "HyCommandCompiler()" then
-    match args with
-    | VInt i :: _ =>
-        match nth_input inputs i with
-        | Some IIncomplete => (h, ORet VNone)
-        | Some (IValue _) | Some (IRunError _ _) => (h, ORet (code_of i))
-        | Some (ICompileError x) =>
-            match hget h loc_id with
-            | Some (ODict kvs) =>
-                (hset h loc_id (ODict (dset kinfo (VTup [VGlobal "type(exc)"; x; VGlobal "exc.__traceback__"]) kvs)),
-                 ORaise x)
-            | _ => (h, ORaise x)
-            end
-        | None => (h, ORaise (VExc "ValueError" 99))
-        end
-    | _ => (h, ORaise (VExc "TypeError" 98))
+    match inp with
+    | IIncomplete => (h, ORet VNone)
+    | IValue _ | IRunError _ _ => (h, ORet code_of)
+    | ICompileError x =>
+        (match hget h loc_id with
+         | Some (ODict kvs) =>
+             hset h loc_id (ODict (dset kinfo (VTup [VGlobal "type(exc)"; x; VGlobal "exc.__traceback__"]) kvs))
+         | _ => h
+         end, ORaise x)
     end
   else if String.eqb g "eval" then
     match args with
-    | VTup [VInt i; VInt p] :: _ =>
-        match nth_input inputs i with
-        | Some (IValue v) => (h, ORet (if (p =? 0)%Z then VNone else v))
-        | Some (IRunError x first) =>
-            if (p =? 0)%Z then (if first then (h, ORaise x) else (h, ORet VNone))
-            else (h, ORaise x)
+    | VTup [VInt _; VInt p] :: _ =>
+        match inp with
+        | IValue v => (h, ORet (if (p =? 0)%Z then VNone else v))
+        | IRunError x first =>
+            (h, if (p =? 0)%Z then (if first then ORaise x else ORet VNone) else ORaise x)
         | _ => (h, ORaise (VExc "RuntimeError" 97))
         end
     | _ => (h, ORaise (VExc "TypeError" 96))
     end
   else if String.eqb g "output_fn" then
     match args with
-    | [v] => match out v with Some x => (h, ORaise x) | None => (h, ORet (VStr "<text>")) end
+    | [v] => (h, match out v with Some x => ORaise x | None => ORet (VStr "<text>") end)
     | _ => (h, ORaise (VExc "TypeError" 95))
     end
   else if String.eqb g "mangle" then
@@ -88,60 +86,63 @@ Definition session_pure (inputs : list input) (out : out_script) : pure_oracle :
     | _ => (h, ORet (VStr "<mangled>"))
     end
   else (h, ORet VNone).   (* print, sys.excepthook, setattr on sys *)
-Definition session_oracle (inputs : list input) (out : out_script) : oracle := nr (session_pure inputs out).
 
 Definition repl_fuel : nat := 80.
 
-(* push input number i *)
-Definition run_input (inputs : list input) (out : out_script) (i : Z) (s : st) : eres :=
-  run_method repl_prog (session_oracle inputs out) repl_fuel (VRef self_id) "runsource" [VInt i] [] s.
+(* push one input: runsource(...) on the REPL object, except clauses decided by m *)
+Definition run1 (m : val -> list string -> bool) (inp : input) (out : out_script) (s : st) : eres :=
+  run_method (repl_prog_m m) (nr (one_pure inp out)) repl_fuel (VRef self_id) "runsource" [VInt 0] [] s.
 
-(* the same with a postcondition as the final continuation *)
-Definition wp_input (inputs : list input) (out : out_script) (i : Z) (s : st) (Q : eres -> Prop) : Prop :=
-  call_method repl_prog (session_oracle inputs out) Prop False (fun _ => False)
-    (exec_block repl_prog (session_oracle inputs out) Prop False (fun _ => False) repl_fuel) repl_fuel
-    None (VRef self_id) "runsource" [VInt i] [] s
-    (fun v s' => Q (EOk v s')) (fun x s' => Q (EExc x s')).
+(* a session: input after input on the heap the previous one left; None = the model left the fragment *)
+Fixpoint run_inputs (m : val -> list string -> bool) (out : out_script) (inputs : list input) (s : st) : option st :=
+  match inputs with
+  | [] => Some s
+  | inp :: r =>
+      match run1 m inp out s with
+      | EOk _ s1 | EExc _ s1 => run_inputs m out r s1
+      | _ => None
+      end
+  end.
 
 (* ---- the abstract machine the generated code is shown to implement *)
-Record rstate := { r_last : val; r_print : bool; r_1 : val; r_2 : val; r_3 : val; r_e : option val }.
+Record rstate := { r_last : val; r_print : bool; r_1 : val; r_2 : val; r_3 : val; r_e : val (* VNone: none yet *) }.
 
-Definition exc_class (P : prog) (x : val) (classes : list string) : bool := exc_matches P x classes.
-Definition is_syntax_family (x : val) := exc_class repl_prog x ["OverflowError"; "SyntaxError"; "ValueError"].
-Definition is_macro_or_require (x : val) := exc_class repl_prog x ["HyMacroExpansionError"; "HyRequireError"].
-Definition is_language_error (x : val) := exc_class repl_prog x ["HyLanguageError"].
-Definition is_system_exit (x : val) := exc_class repl_prog x ["SystemExit"].
-Definition is_exception (x : val) := exc_class repl_prog x ["Exception"].
+Section Machine.
+Variable m : val -> list string -> bool.
+Definition is_syntax_family (x : val) := m x ["OverflowError"; "SyntaxError"; "ValueError"].
+Definition is_macro_or_require (x : val) := m x ["HyMacroExpansionError"; "HyRequireError"].
+Definition is_language_error (x : val) := m x ["HyLanguageError"].
+Definition is_system_exit (x : val) := m x ["SystemExit"].
+Definition is_exception (x : val) := m x ["Exception"].
 
 Definition shift (r : rstate) : rstate :=
   {| r_last := r_last r; r_print := r_print r; r_1 := r_last r; r_2 := r_1 r; r_3 := r_2 r; r_e := r_e r |}.
-
 Definition set_e (r : rstate) (x : val) : rstate :=
-  {| r_last := r_last r; r_print := r_print r; r_1 := r_1 r; r_2 := r_2 r; r_3 := r_3 r; r_e := Some x |}.
+  {| r_last := r_last r; r_print := r_print r; r_1 := r_1 r; r_2 := r_2 r; r_3 := r_3 r; r_e := x |}.
 Definition set_print (r : rstate) (b : bool) : rstate :=
   {| r_last := r_last r; r_print := b; r_1 := r_1 r; r_2 := r_2 r; r_3 := r_3 r; r_e := r_e r |}.
 
-(* result of one input: Some b = runsource returned b; None = an exception left runsource.
+(* result of one input: inl b = runsource returned b; inr x = exception x left runsource.
    Only an input that was evaluated to a value shifts *1 *2 *3 (and may print). *)
-Definition step (out : out_script) (inp : input) (r : rstate) : rstate * option bool :=
+Definition step (out : out_script) (inp : input) (r : rstate) : rstate * (bool + val) :=
   match inp with
-  | IIncomplete => (r, Some true)
+  | IIncomplete => (r, inl true)
   | IValue v =>
       let r1 := shift {| r_last := v; r_print := negb (is_none v); r_1 := r_1 r; r_2 := r_2 r; r_3 := r_3 r; r_e := r_e r |} in
-      if is_none v then (r1, Some false)
+      if is_none v then (r1, inl false)
       else match out v with
-           | None => (r1, Some false)
-           | Some y => if is_exception y then (set_e r1 y, Some false) else (r1, None)
+           | None => (r1, inl false)
+           | Some y => if is_exception y then (set_e r1 y, inl false) else (r1, inr y)
            end
   | ICompileError x =>
-      if is_syntax_family x then (set_e (set_print r false) x, Some false)
-      else if is_macro_or_require x then (set_e (set_print r false) x, Some false)
-      else if is_language_error x then (set_e r x, Some false)
-      else (r, None)
+      if is_syntax_family x then (set_e (set_print r false) x, inl false)
+      else if is_macro_or_require x then (set_e (set_print r false) x, inl false)
+      else if is_language_error x then (set_e r x, inl false)
+      else (r, inr x)
   | IRunError x _ =>
-      if is_system_exit x then (r, None)
-      else if is_exception x then (set_e (set_print r false) x, Some false)
-      else (r, None)
+      if is_system_exit x then (r, inr x)
+      else if is_exception x then (set_e (set_print r false) x, inl false)
+      else (r, inr x)
   end.
 
 Fixpoint run_abstract (out : out_script) (inputs : list input) (r : rstate) : rstate :=
@@ -149,33 +150,24 @@ Fixpoint run_abstract (out : out_script) (inputs : list input) (r : rstate) : rs
   | [] => r
   | i :: rest => run_abstract out rest (fst (step out i r))
   end.
+End Machine.
 
-Definition initial : rstate := {| r_last := VNone; r_print := true; r_1 := VNone; r_2 := VNone; r_3 := VNone; r_e := None |}.
+Definition initial : rstate := {| r_last := VNone; r_print := true; r_1 := VNone; r_2 := VNone; r_3 := VNone; r_e := VNone |}.
 
 (* ---- observing the concrete heap *)
 Definition observe (h : heap) : option rstate :=
   match hget h self_id, hget h loc_id with
   | Some (OInst _ attrs), Some (ODict kvs) =>
-      match aget "last_value" attrs, aget "print_last_value" attrs, dget k1 kvs, dget k2 kvs, dget k3 kvs with
-      | Some lv, Some (VBool pf), Some a, Some b, Some c =>
-          Some {| r_last := lv; r_print := pf; r_1 := a; r_2 := b; r_3 := c; r_e := dget ke kvs |}
-      | _, _, _, _, _ => None
+      match aget "last_value" attrs, aget "print_last_value" attrs, dget k1 kvs, dget k2 kvs, dget k3 kvs, dget ke kvs with
+      | Some lv, Some (VBool pf), Some a, Some b, Some c, Some e =>
+          Some {| r_last := lv; r_print := pf; r_1 := a; r_2 := b; r_3 := c; r_e := e |}
+      | _, _, _, _, _, _ => None
       end
   | _, _ => None
   end.
 
-Definition initial_heap : heap :=
-  [(self_id, repl_obj VNone true); (loc_id, repl_locals VNone VNone VNone [])].
+(* a new REPL: everything None, the print flag set *)
+Definition initial_heap : heap := mkheap VNone true false VNone VNone VNone VNone VNone [] [].
 
-(* run a whole session on the generated code: inputs j, j+1, ... (k of them) in order *)
-Fixpoint run_session_from (inputs : list input) (out : out_script) (j : nat) (k : nat) (s : st) : option st :=
-  match k with
-  | O => Some s
-  | S k' =>
-      match run_input inputs out (Z.of_nat j) s with
-      | EOk _ s1 | EExc _ s1 => run_session_from inputs out (S j) k' s1
-      | _ => None
-      end
-  end.
 Definition run_session (inputs : list input) (out : out_script) : option st :=
-  run_session_from inputs out 0 (List.length inputs) (initial_heap, []).
+  run_inputs table out inputs (initial_heap, []).
